@@ -6,7 +6,7 @@ from ..tlc import WORK
 
 SCRIPT = ('c={ctl}/{name}; n=$(cat $c.count 2>/dev/null || echo 0); n=$((n+1)); echo $n > $c.count; '
           'o=$(sed -n ${{n}}p $c.script); if [ -z "$o" ]; then o=$(tail -n 1 $c.script); fi; echo r-{ver}; '
-          'case $o in ok) echo r-{ver} > out.txt;; omit) ;; *) exit 3;; esac')
+          'case $o in ok) echo r-{ver} > out.txt;; omit) ;; killed) echo r-{ver} > out.txt; kill -9 $$;; *) exit 3;; esac')
 
 
 def make_jobs(ctl):
@@ -21,7 +21,8 @@ def make_jobs(ctl):
         @Job(return_files=("out.txt",)).prep
         def calc(self, obj, ver):
             cmd = "sh -c '" + SCRIPT.format(ctl=ctl, name=obj, ver=ver) + "'"
-            return JobInput(jid=str(obj), commands=[(cmd, "main")], files={"note.txt": b"x"},
+            # a second command that always succeeds: a failure of the first one must stop the job
+            return JobInput(jid=str(obj), commands=[(cmd, "main"), ("sh -c 'exit 0'", None)], files={"note.txt": b"x"},
                             return_files=self.return_files)
 
         @calc.post
